@@ -7,4 +7,4 @@ From Mos Require Import model.Life Gen.LifeSites.
 
 Extraction "../extract/gen/c20.ml"
   Z.add Z.mul Z.sub Z.opp Z.div Z.modulo Z.ltb Z.eqb Z.of_N Z.to_N Z.of_nat Z.to_nat N.add N.mul
-  life_variant v_pinned v_take_only v_take_drop v_take_drop_wake v_first_repair v_repaired step initial initial_dead spec_exit_code clean_exit exited all_scripts.
+  life_variant v_pinned v_take_only v_take_drop v_take_drop_wake v_first_repair v_repaired v_rendezvous step initial initial_dead initial_launch spec_exit_code clean_exit exited all_scripts.
